@@ -184,6 +184,37 @@ func VH_C03_P2() {
 	vf.Assert("C03.recovered.view", err == nil)
 	// C04: the in-flight transaction is visible completely or not at all
 	vf.Assert("C04.atomic", newCount == 0 || oldCount == 0)
+	// C04 for the acknowledged transactions: none of them may be visible in part.  (Checked
+	// when nothing is in flight, so every key has exactly one allowed value.)
+	if len(fkeys) == 0 && !postAcked && !postInflight {
+		for i := 0; i <= acked && i < len(txns); i++ {
+			if len(txns[i]) < 2 {
+				continue
+			}
+			// keys of transaction i that no later acknowledged transaction overwrote
+			seen, missing := 0, 0
+			for _, o := range txns[i] {
+				later := false
+				for j := i + 1; j <= acked && j < len(txns); j++ {
+					for _, o2 := range txns[j] {
+						if o2.k == o.k {
+							later = true
+						}
+					}
+				}
+				if later {
+					continue
+				}
+				has := (found[o.k] == !o.del) && (o.del || (len(got[o.k]) == 1 && got[o.k][0] == o.v))
+				if has {
+					seen++
+				} else {
+					missing++
+				}
+			}
+			vf.Assert("C04.acked-atomic", seen == 0 || missing == 0)
+		}
+	}
 	if newCount > 0 {
 		vf.Cover("C03.inflight-visible")
 	}
